@@ -34,7 +34,11 @@ ACCEPT = ['application/json', 'application/json; charset=utf-8', 'application/js
 REFUSE = ['application/x+json', 'application/jsonx', 'text/plain', 'application/json-rpc+x', None]
 
 
+SEEN = []
+
+
 def status_fn(codes):
+    SEEN.append(tuple(codes))           # the spec: called once, with exactly the dispatcher's error codes
     return 200 if not codes or all(c == 0 for c in codes) else 207
 
 
@@ -61,7 +65,10 @@ def judge(kind, ctype, bname, status, rtype, text, raised, want, with_status, ca
             bad.append(f'expected empty 200, got {status} {text!r}')
         return bad
     wtext, codes = want
+    seen = list(SEEN)
     wstatus = status_fn(codes) if with_status else 200
+    if with_status and seen != [tuple(codes)]:
+        bad.append(f'status-by-error function called with {seen}, expected once with {tuple(codes)}')
     if status != wstatus:
         bad.append(f'status {status}, expected {wstatus}')
     try:
@@ -97,6 +104,7 @@ def run_werkzeug():
         app.dispatcher.add(ping), app.dispatcher.add(boom)
         want = expected(disp, BODIES[b]) if kind == 'accept' else None
         del CALLS[:]
+        del SEEN[:]
         raised = status = rtype = text = None
         try:
             r = Client(app).post('/api', data=BODIES[b], content_type=t)
@@ -125,6 +133,7 @@ def run_flask():
         rpc.init_app(app)
         want = expected(disp, BODIES[b]) if kind == 'accept' else None
         del CALLS[:]
+        del SEEN[:]
         raised = status = rtype = text = None
         try:
             r = app.test_client().post('/api', data=BODIES[b], content_type=t)
@@ -153,6 +162,7 @@ def run_aiohttp():
             rpc.dispatcher.add(ping), rpc.dispatcher.add(boom)
             want = await disp().dispatch(BODIES[b].decode()) if kind == 'accept' else None
             del CALLS[:]
+            del SEEN[:]
             raised = status = rtype = text = None
             try:
                 async with TestClient(TestServer(rpc.app)) as c:
